@@ -24,6 +24,8 @@ func main() {
 		os.Exit(cmdList(os.Args[2:]))
 	case "ssa":
 		os.Exit(cmdSSA(os.Args[2:]))
+	case "audit":
+		os.Exit(cmdAudit(os.Args[2:]))
 	case "ghostmods":
 		w, err := loadWorldWithSpecs()
 		if err != nil {
@@ -225,3 +227,76 @@ func modelSummary(m map[string]string, n int) string {
 	return strings.Join(out, " ")
 }
 
+
+// cmdAudit lists, for every postcondition of an in-repo contract, the checks
+// that prove it (function is a functional root there and the clause is
+// active). A clause no check proves is an assumption at its call sites.
+func cmdAudit(args []string) int {
+	w, err := loadWorldWithSpecs()
+	if err != nil {
+		fmt.Fprintln(os.Stderr, err)
+		return 2
+	}
+	checks, err := loadChecks()
+	if err != nil {
+		fmt.Fprintln(os.Stderr, err)
+		return 2
+	}
+	var props []string
+	for p := range checks {
+		props = append(props, p)
+	}
+	sort.Strings(props)
+	var names []string
+	for n, ct := range w.Specs.Contracts {
+		if !ct.Extern && len(ct.Ensures) > 0 {
+			names = append(names, n)
+		}
+	}
+	sort.Strings(names)
+	unproved := 0
+	for _, n := range names {
+		ct := w.Specs.Contracts[n]
+		if w.Func(n) == nil {
+			fmt.Printf("%-60s NO SUCH FUNCTION (contract is dead text)\n", n)
+			continue
+		}
+		for _, en := range ct.Ensures {
+			var by []string
+			for _, p := range props {
+				cs := checks[p]
+				isRoot := false
+				for _, r := range cs.Roots {
+					if r.Func == n && contains(r.Modes, "functional") && (len(r.Kinds) == 0 || contains(r.Kinds, "ensures")) {
+						isRoot = true
+					}
+				}
+				if !isRoot {
+					continue
+				}
+				if len(en.Props) == 0 || contains(en.Props, p) || overlaps(en.Props, cs.Also) {
+					by = append(by, p)
+				}
+			}
+			lbl := en.Label
+			if lbl == "" {
+				lbl = truncate(en.Src, 50)
+			}
+			tag := ""
+			if strings.Contains(strings.Join(en.Props, ","), "ghostdef") {
+				tag = " (ghost definition)"
+			}
+			if ct.Trusted {
+				tag += " (contract marked trusted)"
+			}
+			if len(by) == 0 {
+				unproved++
+				fmt.Printf("UNPROVED %-55s [%s]%s\n", n, lbl, tag)
+			} else if len(args) > 0 && args[0] == "-v" {
+				fmt.Printf("proved   %-55s [%s] by %s\n", n, lbl, strings.Join(by, ","))
+			}
+		}
+	}
+	fmt.Printf("%d postcondition clause(s) of in-repo contracts are proved by no check\n", unproved)
+	return 0
+}
